@@ -19,7 +19,10 @@ use miniscript::bitcoin::key::TapTweak;
 use miniscript::bitcoin::script::Instruction;
 use miniscript::bitcoin::secp256k1::{self, Message, Secp256k1, SecretKey};
 use miniscript::bitcoin::sighash::{EcdsaSighashType, Prevouts, SighashCache, TapSighashType};
-use miniscript::bitcoin::taproot::{TapLeafHash, TapNodeHash};
+use miniscript::bitcoin::taproot::{ControlBlock, LeafVersion, TapLeafHash, TapNodeHash};
+use miniscript::bitcoin::psbt::Psbt;
+use miniscript::bitcoin::secp256k1::XOnlyPublicKey;
+use miniscript::psbt::PsbtExt;
 use miniscript::bitcoin::{
     absolute, ecdsa, psbt, relative, taproot, Amount, Network, PublicKey, ScriptBuf, Transaction, TxOut,
 };
@@ -34,7 +37,7 @@ use miniscript::{
 use crate::ast::{self, hex, Atoms, CtxK, Node, HK};
 use crate::common::{Out, Rng};
 use crate::desc::{self, wit_wire, VALUE};
-use crate::msops::hash_id;
+use crate::msops::{hash_id, rawpkh_id};
 
 fn secp() -> &'static Secp256k1<secp256k1::All> {
     static S: std::sync::OnceLock<Secp256k1<secp256k1::All>> = std::sync::OnceLock::new();
@@ -179,9 +182,16 @@ pub struct PA {
     pub pre: BTreeSet<(HK, u32)>,
     pub abs: Option<u32>,
     pub rel: Option<u32>,
+    /// raw key-hash atoms whose public key is known / for which a signature is available.
+    /// `plan::Assets` cannot express these (its `provider_lookup_raw_pkh_*` are the trait
+    /// defaults); when non-empty the case is planned through the blanket
+    /// `impl AssetProvider for Satisfier` with the `PSat` itself as provider.
+    pub rawpk: BTreeSet<u32>,
+    pub rawsig: BTreeSet<u32>,
 }
 
 impl PA {
+    pub fn has_raw(&self) -> bool { !self.rawpk.is_empty() || !self.rawsig.is_empty() }
     pub fn wire(&self) -> String {
         let ks: Vec<String> = self.srcs.iter().map(|s| {
             let lv = match &s.leaves { Leaves::None => "n".into(), Leaves::Any => "*".into(), Leaves::Only(v) => v.iter().map(|i| i.to_string()).collect::<Vec<_>>().join("+") };
@@ -189,8 +199,11 @@ impl PA {
         }).collect();
         let ps: Vec<String> = self.pre.iter().map(|(k, h)| format!("{}:{}", k.name(), h)).collect();
         let j = |v: Vec<String>| if v.is_empty() { "-".to_string() } else { v.join(",") };
-        format!("k={};p={};a={};o={}", j(ks), j(ps), self.abs.map(|x| x.to_string()).unwrap_or("-".into()),
-            self.rel.map(|x| x.to_string()).unwrap_or("-".into()))
+        let base = format!("k={};p={};a={};o={}", j(ks), j(ps), self.abs.map(|x| x.to_string()).unwrap_or("-".into()),
+            self.rel.map(|x| x.to_string()).unwrap_or("-".into()));
+        if self.has_raw() {
+            format!("{};rp={};rs={}", base, j(self.rawpk.iter().map(|x| x.to_string()).collect()), j(self.rawsig.iter().map(|x| x.to_string()).collect()))
+        } else { base }
     }
     pub fn to_assets(&self, leaves: &[TapLeafHash]) -> PlanAssets {
         let mut a = PlanAssets::new();
@@ -239,7 +252,12 @@ pub struct DD {
     /// taproot: internal key atom and, per leaf, the key atoms of that leaf
     pub internal: Option<u32>,
     pub leaf_keys: Vec<Vec<u32>>,
+    pub rawpkhs: Vec<u32>,
+    /// every miniscript passes `check_global_validity` + `validate(&Ctx::CONSENSUS)` (what the PSBT finalizer's `decode_consensus` insists on)
+    pub sane: bool,
 }
+
+fn raws(nodes: &[&Node]) -> Vec<u32> { let mut v = vec![]; for n in nodes { n.rawpkhs(&mut v); } v.sort(); v.dedup(); v }
 
 #[derive(Clone, Copy, Debug, PartialEq, Eq)]
 pub enum Wrap { Wsh, ShWsh, Sh, Bare, Pkh, Wpkh, ShWpkh }
@@ -255,15 +273,16 @@ fn collect(nodes: &[&Node]) -> (Vec<u32>, Vec<(HK, u32)>, Vec<u32>, Vec<u32>) {
 
 pub fn dd_ms(wrap: Wrap, node: &Node) -> Option<DD> {
     type K = DefiniteDescriptorKey;
-    let desc = match wrap {
-        Wrap::Wsh => Descriptor::new_wsh(ast::to_ms::<K, Segwitv0>(node).ok()?).ok()?,
-        Wrap::ShWsh => Descriptor::new_sh_wsh(ast::to_ms::<K, Segwitv0>(node).ok()?).ok()?,
-        Wrap::Sh => Descriptor::new_sh(ast::to_ms::<K, Legacy>(node).ok()?).ok()?,
-        Wrap::Bare => Descriptor::new_bare(ast::to_ms::<K, BareCtx>(node).ok()?).ok()?,
+    use miniscript::ScriptContext;
+    let (desc, sane) = match wrap {
+        Wrap::Wsh => { let ms = ast::to_ms::<K, Segwitv0>(node).ok()?; let s = (Segwitv0::check_global_validity(&ms).is_ok() && ms.validate(&Segwitv0::CONSENSUS).is_ok()); (Descriptor::new_wsh(ms).ok()?, s) }
+        Wrap::ShWsh => { let ms = ast::to_ms::<K, Segwitv0>(node).ok()?; let s = (Segwitv0::check_global_validity(&ms).is_ok() && ms.validate(&Segwitv0::CONSENSUS).is_ok()); (Descriptor::new_sh_wsh(ms).ok()?, s) }
+        Wrap::Sh => { let ms = ast::to_ms::<K, Legacy>(node).ok()?; let s = (Legacy::check_global_validity(&ms).is_ok() && ms.validate(&Legacy::CONSENSUS).is_ok()); (Descriptor::new_sh(ms).ok()?, s) }
+        Wrap::Bare => { let ms = ast::to_ms::<K, BareCtx>(node).ok()?; let s = (BareCtx::check_global_validity(&ms).is_ok() && ms.validate(&BareCtx::CONSENSUS).is_ok()); (Descriptor::new_bare(ms).ok()?, s) }
         _ => return None,
     };
     let (keys, hashes, afters, olders) = collect(&[node]);
-    Some(DD { name: desc.to_string().split('#').next().unwrap().to_string(), desc, keys, hashes, afters, olders, leaves: vec![], internal: None, leaf_keys: vec![] })
+    Some(DD { name: desc.to_string().split('#').next().unwrap().to_string(), desc, keys, hashes, afters, olders, leaves: vec![], internal: None, leaf_keys: vec![], rawpkhs: raws(&[node]), sane })
 }
 pub fn dd_key(wrap: Wrap, key: u32) -> Option<DD> {
     let k = kent(key).def.clone();
@@ -273,15 +292,18 @@ pub fn dd_key(wrap: Wrap, key: u32) -> Option<DD> {
         Wrap::ShWpkh => Descriptor::new_sh_wpkh(k).ok()?,
         _ => return None,
     };
-    Some(DD { name: desc.to_string().split('#').next().unwrap().to_string(), desc, keys: vec![key], hashes: vec![], afters: vec![], olders: vec![], leaves: vec![], internal: None, leaf_keys: vec![] })
+    Some(DD { name: desc.to_string().split('#').next().unwrap().to_string(), desc, keys: vec![key], hashes: vec![], afters: vec![], olders: vec![], leaves: vec![], internal: None, leaf_keys: vec![], rawpkhs: vec![], sane: true })
 }
 /// tr(internal, leaves as a left-leaning comb)
 pub fn dd_tr(internal: u32, leaf_nodes: &[Node]) -> Option<DD> {
     type K = DefiniteDescriptorKey;
     let mut tree: Option<TapTree<K>> = None;
     let mut lhs = vec![];
+    let mut sane = true;
     for n in leaf_nodes {
+        use miniscript::ScriptContext;
         let ms: Miniscript<K, Tap> = ast::to_ms(n).ok()?;
+        sane &= Tap::check_global_validity(&ms).is_ok() && ms.validate(&Tap::CONSENSUS).is_ok();
         lhs.push(TapLeafHash::from_script(&ms.encode(), miniscript::bitcoin::taproot::LeafVersion::TapScript));
         let leaf = TapTree::leaf(Arc::new(ms));
         tree = Some(match tree { None => leaf, Some(t) => TapTree::combine(t, leaf).ok()? });
@@ -291,7 +313,7 @@ pub fn dd_tr(internal: u32, leaf_nodes: &[Node]) -> Option<DD> {
     let (mut keys, hashes, afters, olders) = collect(&refs);
     let leaf_keys = leaf_nodes.iter().map(|n| collect(&[n]).0).collect();
     if !keys.contains(&internal) { keys.push(internal); }
-    Some(DD { name: desc.to_string().split('#').next().unwrap().to_string(), desc, keys, hashes, afters, olders, leaves: lhs, internal: Some(internal), leaf_keys })
+    Some(DD { name: desc.to_string().split('#').next().unwrap().to_string(), desc, keys, hashes, afters, olders, leaves: lhs, internal: Some(internal), leaf_keys, rawpkhs: raws(&refs), sane })
 }
 
 /* ---------------------------------------------------------------- the satisfier with real signatures */
@@ -305,6 +327,17 @@ pub struct PSat<'a> {
     tap_root: Option<Option<TapNodeHash>>,
     pub issued: RefCell<Vec<(Vec<u8>, Vec<u8>)>>,
     pub tap_key_sig: RefCell<Option<Vec<u8>>>,
+    /// everything handed out, typed (for the PSBT checks)
+    pub log: RefCell<Vec<Given>>,
+}
+
+#[derive(Clone, Debug)]
+pub enum Given {
+    Ecdsa { key: u32, pk: PublicKey, sig: ecdsa::Signature },
+    RawEcdsa { pk: PublicKey, sig: ecdsa::Signature },
+    TapKey { sig: taproot::Signature },
+    TapLeaf { key: Option<u32>, x: XOnlyPublicKey, leaf: TapLeafHash, sig: taproot::Signature },
+    Pre { kind: HK, id: u32 },
 }
 
 impl<'a> PSat<'a> {
@@ -314,15 +347,10 @@ impl<'a> PSat<'a> {
         let segwit = matches!(dd.desc.desc_type(), DescriptorType::Wsh | DescriptorType::ShWsh | DescriptorType::Wpkh | DescriptorType::ShWpkh);
         let code = dd.desc.script_code().ok().map(|c| (c, segwit));
         let tap_root = match &dd.desc { Descriptor::Tr(tr) => Some(tr.spend_info().merkle_root()), _ => None };
-        PSat { pa, dd, tx, prevout, code, tap_root, issued: Default::default(), tap_key_sig: Default::default() }
+        PSat { pa, dd, tx, prevout, code, tap_root, issued: Default::default(), tap_key_sig: Default::default(), log: Default::default() }
     }
     fn leaf_index(&self, lh: &TapLeafHash) -> Option<usize> { self.dd.leaves.iter().position(|l| l == lh) }
-}
-
-impl<'a> Satisfier<DefiniteDescriptorKey> for PSat<'a> {
-    fn lookup_ecdsa_sig(&self, pk: &DefiniteDescriptorKey) -> Option<ecdsa::Signature> {
-        let k = kent_of(pk)?;
-        if !self.pa.srcs.iter().any(|s| s.ecdsa && s.covers(k)) { return None; }
+    fn ecdsa_over_code(&self, sk: &SecretKey) -> Option<ecdsa::Signature> {
         let (sc, segwit) = self.code.as_ref()?;
         let mut cache = SighashCache::new(&self.tx);
         let digest: [u8; 32] = if *segwit {
@@ -330,10 +358,53 @@ impl<'a> Satisfier<DefiniteDescriptorKey> for PSat<'a> {
         } else {
             cache.legacy_signature_hash(0, sc, EcdsaSighashType::All.to_u32()).ok()?.to_byte_array()
         };
-        let sig = secp().sign_ecdsa(&Message::from_digest(digest), &k.sk);
-        let s = ecdsa::Signature { signature: sig, sighash_type: EcdsaSighashType::All };
+        let sig = secp().sign_ecdsa(&Message::from_digest(digest), sk);
+        Some(ecdsa::Signature { signature: sig, sighash_type: EcdsaSighashType::All })
+    }
+    fn pre(&self, kind: HK, v: &[u8]) -> Option<[u8; 32]> {
+        let id = hash_id(kind, v)?;
+        if self.pa.pre.contains(&(kind, id)) { self.log.borrow_mut().push(Given::Pre { kind, id }); Some(ast::preimage(id)) } else { None }
+    }
+}
+
+impl<'a> Satisfier<DefiniteDescriptorKey> for PSat<'a> {
+    fn lookup_ecdsa_sig(&self, pk: &DefiniteDescriptorKey) -> Option<ecdsa::Signature> {
+        let k = kent_of(pk)?;
+        if !self.pa.srcs.iter().any(|s| s.ecdsa && s.covers(k)) { return None; }
+        let s = self.ecdsa_over_code(&k.sk)?;
         self.issued.borrow_mut().push((k.pk.to_bytes(), s.to_vec()));
+        self.log.borrow_mut().push(Given::Ecdsa { key: k.id, pk: k.pk, sig: s });
         Some(s)
+    }
+    fn lookup_raw_pkh_pk(&self, h: &hash160::Hash) -> Option<PublicKey> {
+        let id = rawpkh_id(h)?;
+        if id < 200 && self.pa.rawpk.contains(&id) { Some(ast::full_key(id)) } else { None }
+    }
+    fn lookup_raw_pkh_x_only_pk(&self, h: &hash160::Hash) -> Option<XOnlyPublicKey> {
+        let id = rawpkh_id(h)?;
+        if id >= 200 && self.pa.rawpk.contains(&id) { Some(ast::xonly_key(id)) } else { None }
+    }
+    fn lookup_raw_pkh_ecdsa_sig(&self, h: &hash160::Hash) -> Option<(PublicKey, ecdsa::Signature)> {
+        let id = rawpkh_id(h)?;
+        if !(id < 200 && self.pa.rawsig.contains(&id)) { return None; }
+        let pk = ast::full_key(id);
+        let s = self.ecdsa_over_code(&ast::secret(id % 100))?;
+        self.issued.borrow_mut().push((pk.to_bytes(), s.to_vec()));
+        self.log.borrow_mut().push(Given::RawEcdsa { pk, sig: s });
+        Some((pk, s))
+    }
+    fn lookup_raw_pkh_tap_leaf_script_sig(&self, h: &(hash160::Hash, TapLeafHash)) -> Option<(XOnlyPublicKey, taproot::Signature)> {
+        let id = rawpkh_id(&h.0)?;
+        if !(id >= 200 && self.pa.rawsig.contains(&id)) { return None; }
+        let x = ast::xonly_key(id);
+        let mut cache = SighashCache::new(&self.tx);
+        let digest = cache.taproot_script_spend_signature_hash(0, &Prevouts::All(&[self.prevout.clone()]), h.1, TapSighashType::Default).ok()?;
+        let kp = secp256k1::Keypair::from_secret_key(secp(), &ast::secret(id % 100));
+        let sig = secp().sign_schnorr_with_aux_rand(&Message::from_digest(digest.to_byte_array()), &kp, &[9u8; 32]);
+        let s = taproot::Signature { signature: sig, sighash_type: TapSighashType::Default };
+        self.issued.borrow_mut().push((x.serialize().to_vec(), s.to_vec()));
+        self.log.borrow_mut().push(Given::TapLeaf { key: None, x, leaf: h.1, sig: s });
+        Some((x, s))
     }
     fn lookup_tap_key_spend_sig(&self, pk: &DefiniteDescriptorKey) -> Option<taproot::Signature> {
         let k = kent_of(pk)?;
@@ -346,6 +417,7 @@ impl<'a> Satisfier<DefiniteDescriptorKey> for PSat<'a> {
         let sig = secp().sign_schnorr_with_aux_rand(&Message::from_digest(digest.to_byte_array()), &kp.to_inner(), &[9u8; 32]);
         let s = taproot::Signature { signature: sig, sighash_type: ty };
         *self.tap_key_sig.borrow_mut() = Some(s.to_vec());
+        self.log.borrow_mut().push(Given::TapKey { sig: s });
         Some(s)
     }
     fn lookup_tap_leaf_script_sig(&self, pk: &DefiniteDescriptorKey, leaf: &TapLeafHash) -> Option<taproot::Signature> {
@@ -359,24 +431,13 @@ impl<'a> Satisfier<DefiniteDescriptorKey> for PSat<'a> {
         let sig = secp().sign_schnorr_with_aux_rand(&Message::from_digest(digest.to_byte_array()), &kp, &[9u8; 32]);
         let s = taproot::Signature { signature: sig, sighash_type: ty };
         self.issued.borrow_mut().push((k.pk.inner.x_only_public_key().0.serialize().to_vec(), s.to_vec()));
+        self.log.borrow_mut().push(Given::TapLeaf { key: Some(k.id), x: k.pk.inner.x_only_public_key().0, leaf: *leaf, sig: s });
         Some(s)
     }
-    fn lookup_sha256(&self, h: &sha256::Hash) -> Option<[u8; 32]> {
-        let id = hash_id(HK::Sha256, h.as_byte_array())?;
-        if self.pa.pre.contains(&(HK::Sha256, id)) { Some(ast::preimage(id)) } else { None }
-    }
-    fn lookup_hash256(&self, h: &hash256::Hash) -> Option<[u8; 32]> {
-        let id = hash_id(HK::Hash256, h.as_byte_array())?;
-        if self.pa.pre.contains(&(HK::Hash256, id)) { Some(ast::preimage(id)) } else { None }
-    }
-    fn lookup_ripemd160(&self, h: &ripemd160::Hash) -> Option<[u8; 32]> {
-        let id = hash_id(HK::Ripemd160, h.as_byte_array())?;
-        if self.pa.pre.contains(&(HK::Ripemd160, id)) { Some(ast::preimage(id)) } else { None }
-    }
-    fn lookup_hash160(&self, h: &hash160::Hash) -> Option<[u8; 32]> {
-        let id = hash_id(HK::Hash160, h.as_byte_array())?;
-        if self.pa.pre.contains(&(HK::Hash160, id)) { Some(ast::preimage(id)) } else { None }
-    }
+    fn lookup_sha256(&self, h: &sha256::Hash) -> Option<[u8; 32]> { self.pre(HK::Sha256, h.as_byte_array()) }
+    fn lookup_hash256(&self, h: &hash256::Hash) -> Option<[u8; 32]> { self.pre(HK::Hash256, h.as_byte_array()) }
+    fn lookup_ripemd160(&self, h: &ripemd160::Hash) -> Option<[u8; 32]> { self.pre(HK::Ripemd160, h.as_byte_array()) }
+    fn lookup_hash160(&self, h: &hash160::Hash) -> Option<[u8; 32]> { self.pre(HK::Hash160, h.as_byte_array()) }
     fn check_older(&self, n: relative::LockTime) -> bool {
         match self.pa.rel { Some(r) => older_ok(r, n.to_consensus_u32()), None => false }
     }
@@ -438,16 +499,71 @@ thread_local! { static RAW_BUDGET: RefCell<BTreeMap<String, u32>> = RefCell::new
 /// — are emitted for the first 25 cases of each tag only: every case of these classes is still
 /// judged by its `J sizes-adj` line, and `bin/check` looks at the first 1000 judge failures only.
 fn raw_budget(op: &str, tag: &str) -> bool {
-    let known = op == "sizes" && (tag.starts_with("wsh.") || tag.starts_with("shwsh.") || tag.starts_with("shwpkh."));
+    let known = match op {
+        "sizes" => tag.starts_with("wsh.") || tag.starts_with("shwsh.") || tag.starts_with("shwpkh."),
+        "psbt-keys" | "psbt-finalize" => tag == "pkhdissat",
+        "psbt-leafhashes" => tag == "withkeys",
+        _ => false,
+    };
     if !known { return true; }
     RAW_BUDGET.with(|b| { let mut b = b.borrow_mut(); let c = b.entry(format!("{} {}", op, tag)).or_insert(0); *c += 1; *c <= 25 })
 }
 
 fn catch<T>(f: impl FnOnce() -> T) -> Option<T> { std::panic::catch_unwind(std::panic::AssertUnwindSafe(f)).ok() }
 
+type DPlan = Plan<DefiniteDescriptorKey>;
+type DDesc = Descriptor<DefiniteDescriptorKey>;
+
+/// `into_plan` / `into_plan_mall` (or the deprecated `plan` / `plan_mall`) with any provider;
+/// `None` = panic
 #[allow(deprecated)]
-fn make_plan(dd: &DD, assets: &PlanAssets, mall: bool) -> Option<Option<Plan<DefiniteDescriptorKey>>> {
-    catch(|| if mall { dd.desc.clone().plan_mall(assets).ok() } else { dd.desc.clone().plan(assets).ok() })
+fn run_plan<Pr: AssetProvider<DefiniteDescriptorKey>>(dd: &DD, pr: &Pr, mall: bool, deprecated: bool) -> Option<Result<DPlan, DDesc>> {
+    catch(|| match (mall, deprecated) {
+        (false, false) => dd.desc.clone().into_plan(pr),
+        (true, false) => dd.desc.clone().into_plan_mall(pr),
+        (false, true) => dd.desc.clone().plan(pr),
+        (true, true) => dd.desc.clone().plan_mall(pr),
+    })
+}
+
+/// template with key / hash identities, for comparing two plans of the same descriptor
+fn ph_id_wire(dd: &DD, p: &Placeholder<DefiniteDescriptorKey>) -> String {
+    use miniscript::miniscript::satisfy::SchnorrSigType;
+    use Placeholder::*;
+    let kid = |k: &DefiniteDescriptorKey| kent_of(k).map(|e| e.id.to_string()).unwrap_or("?".into());
+    let rid = |h: &hash160::Hash| rawpkh_id(h).map(|i| i.to_string()).unwrap_or("?".into());
+    let lid = |l: &TapLeafHash| dd.leaves.iter().position(|x| x == l).map(|i| i.to_string()).unwrap_or("?".into());
+    match p {
+        Pubkey(k, s) => format!("pk{}:{}", kid(k), s),
+        PubkeyHash(h, s) => format!("pkh{}:{}", rid(h), s),
+        EcdsaSigPk(k) => format!("sig{}", kid(k)),
+        EcdsaSigPkHash(h) => format!("sigh{}", rid(h)),
+        SchnorrSigPk(k, SchnorrSigType::KeySpend { .. }, s) => format!("ssig{}:key:{}", kid(k), s),
+        SchnorrSigPk(k, SchnorrSigType::ScriptSpend { leaf_hash }, s) => format!("ssig{}:l{}:{}", kid(k), lid(leaf_hash), s),
+        SchnorrSigPkHash(h, l, s) => format!("ssigh{}:l{}:{}", rid(h), lid(l), s),
+        Sha256Preimage(h) => format!("pre:sha256:{}", hash_id(HK::Sha256, h.as_byte_array()).map(|i| i.to_string()).unwrap_or("?".into())),
+        Hash256Preimage(h) => format!("pre:hash256:{}", hash_id(HK::Hash256, h.as_byte_array()).map(|i| i.to_string()).unwrap_or("?".into())),
+        Ripemd160Preimage(h) => format!("pre:ripemd160:{}", hash_id(HK::Ripemd160, h.as_byte_array()).map(|i| i.to_string()).unwrap_or("?".into())),
+        Hash160Preimage(h) => format!("pre:hash160:{}", hash_id(HK::Hash160, h.as_byte_array()).map(|i| i.to_string()).unwrap_or("?".into())),
+        HashDissatisfaction => "z32".into(),
+        PushOne => "1".into(),
+        PushZero => "0".into(),
+        TapScript(sc) => format!("ts:{}", hex(sc.as_bytes())),
+        TapControlBlock(cb) => format!("cb:{}", hex(&cb.serialize())),
+    }
+}
+/// everything a caller can observe of a plan: template, locks, the three sizes
+fn plan_sig(dd: &DD, p: &Option<DPlan>) -> String {
+    match p {
+        None => "none".into(),
+        Some(p) => {
+            let t: Vec<String> = p.witness_template().iter().map(|x| ph_id_wire(dd, x)).collect();
+            format!("[{}]|a={}|r={}|{}/{}/{}", t.join(","),
+                p.absolute_timelock.map(|l| l.to_consensus_u32().to_string()).unwrap_or("-".into()),
+                p.relative_timelock.map(|l| l.to_consensus_u32().to_string()).unwrap_or("-".into()),
+                p.witness_size(), p.scriptsig_size(), p.satisfaction_weight())
+        }
+    }
 }
 
 /// Does any key of the descriptor have an EMPTY derivation path while a source with the same
@@ -465,11 +581,39 @@ pub fn check_case(out: &mut Out, dd: &DD, pa: &PA, mall: bool, adversarial: bool
     let aw = pa.wire();
     let ty = dd.desc.desc_type();
     let class = if f7_class(dd, pa) { "emptypath" } else { "reg" };
-    // (f) plan / plan_mall must not panic
-    let plan = match make_plan(dd, &assets, mall) {
+    // (f) into_plan / into_plan_mall must not panic.  Cases with raw key-hash assets are planned
+    // through the blanket `impl AssetProvider for Satisfier` (plan::Assets cannot express them).
+    let psat0 = PSat::new(dd, pa, 0, 0xffff_fffe);
+    let via_sat = pa.has_raw();
+    let res = if via_sat { run_plan(dd, &psat0, mall, false) } else { run_plan(dd, &assets, mall, false) };
+    let plan = match res {
         None => { out.line(&format!("J nopanic plan {}.{} {} {} {} PANIC", class, ty_name(ty), mode, dd.name, aw), "ok"); return; }
-        Some(p) => { if adversarial { out.line(&format!("J nopanic plan {}.{} {} {} {} OK", class, ty_name(ty), mode, dd.name, aw), "ok"); } p }
+        Some(r) => {
+            if adversarial { out.line(&format!("J nopanic plan {}.{} {} {} {} OK", class, ty_name(ty), mode, dd.name, aw), "ok"); }
+            match r {
+                Ok(p) => Some(p),
+                Err(d) => {
+                    // `Err` hands the ORIGINAL descriptor back
+                    out.line(&format!("J planerr-desc {} {} {} {} eq={}", mode, aw, dd.desc, d, (d == dd.desc) as u8), "ok");
+                    None
+                }
+            }
+        }
     };
+    // the deprecated `plan` / `plan_mall` are aliases
+    let dep = if via_sat { run_plan(dd, &psat0, mall, true) } else { run_plan(dd, &assets, mall, true) };
+    match dep {
+        None => { out.line(&format!("J nopanic plan-deprecated {}.{} {} {} {} PANIC", class, ty_name(ty), mode, dd.name, aw), "ok"); }
+        Some(d) => out.line(&format!("J plan-alias {} {} {} {} {} {}", ty_name(ty), mode, dd.name, aw, plan_sig(dd, &plan), plan_sig(dd, &d.ok())), "ok"),
+    }
+    // the same assets offered through `impl AssetProvider for Satisfier` (the satisfier signs for
+    // exactly the keys the assets cover) must give the same plan
+    if !via_sat {
+        match run_plan(dd, &psat0, mall, false) {
+            None => { out.line(&format!("J nopanic plan-via-satisfier {}.{} {} {} {} PANIC", class, ty_name(ty), mode, dd.name, aw), "ok"); }
+            Some(r) => out.line(&format!("J plan-provider-same {} {} {} {} {} {}", ty_name(ty), mode, dd.name, aw, plan_sig(dd, &plan), plan_sig(dd, &r.ok())), "ok"),
+        }
+    }
     // transaction fields: the plan's reported locks (else the assets' maxima)
     let (lt, sq) = match &plan {
         Some(p) => (p.absolute_timelock.map(|l| l.to_consensus_u32()).unwrap_or(0),
@@ -490,7 +634,10 @@ pub fn check_case(out: &mut Out, dd: &DD, pa: &PA, mall: bool, adversarial: bool
     // (a) plan exists <=> the satisfier succeeds
     out.line(&format!("J plan-iff-sat {} {} {}", head, sn(plan.is_some()), sn(sat.is_some())), "ok");
     out.count(&format!("case {} plan={} sat={}", ty_name(ty), sn(plan.is_some()), sn(sat.is_some())));
-    let plan = match plan { Some(p) => p, None => return };
+    let plan = match plan {
+        Some(p) => p,
+        None => { if ty == DescriptorType::Tr && dd.leaves.len() >= 2 && !via_sat { tr_choice(out, dd, pa, None, mall, &head); } return; }
+    };
     // model of the size formulas
     let tmpl: Vec<String> = plan.witness_template().iter().map(ph_wire).collect();
     let tw = if tmpl.is_empty() { "-".to_string() } else { tmpl.join(",") };
@@ -498,16 +645,14 @@ pub fn check_case(out: &mut Out, dd: &DD, pa: &PA, mall: bool, adversarial: bool
     out.line(&format!("C plansize {} {} {}", ty_name(ty), tw, script_len),
         &format!("{} {} {}", plan.witness_size(), plan.scriptsig_size(), plan.satisfaction_weight()));
     // complete the plan with the same satisfier
-    let done = match catch(|| plan.satisfy(&psat).ok()) {
+    let psat_p = PSat::new(dd, pa, lt, sq);
+    let done = match catch(|| plan.satisfy(&psat_p).ok()) {
         None => { out.line(&format!("J nopanic plan-satisfy {}.{} {} {} {} PANIC", class, ty_name(ty), mode, dd.name, aw), "ok"); return; }
         Some(d) => d,
     };
-    if catch(|| { let mut inp = psbt::Input::default(); plan.update_psbt_input(&mut inp); }).is_none() {
-        out.line(&format!("J nopanic update_psbt_input {}.{} {} {} {} PANIC", class, ty_name(ty), mode, dd.name, aw), "ok");
-    }
     let (pwit, pss) = match done {
         Some(x) => x,
-        None => { out.line(&format!("J plan-same {} planerr - {}", head, if sat.is_some() { "some" } else { "none" }), "ok"); return; }
+        None => { out.line(&format!("J plan-same {} planerr - {} -", head, if sat.is_some() { "some" } else { "none" }), "ok"); return; }
     };
     // (b) byte equality with the satisfier's output
     if let Some((swit, sss)) = &sat {
@@ -540,7 +685,22 @@ pub fn check_case(out: &mut Out, dd: &DD, pa: &PA, mall: bool, adversarial: bool
     }
     // (c) sufficiency: the spend validates at nLockTime / nSequence EQUAL to the reported locks
     let info = format!("{} lt={} sq={}", head, lt, sq);
-    emit_spend_std(out, "spend", &info, &psat, &pss, &pwit);
+    emit_spend_std(out, "spend", &info, &psat_p, &pss, &pwit);
+    // the template's per-item sizes against the items Plan::satisfy really produced
+    {
+        let n = plan.witness_template().len();
+        let (kind, items): (&str, Vec<Vec<u8>>) = match ty {
+            DescriptorType::Bare | DescriptorType::Pkh | DescriptorType::Sh => ("s", pushed_items(&pss).unwrap_or_default()),
+            _ => ("w", pwit.clone()),
+        };
+        let extra = matches!(ty, DescriptorType::Sh | DescriptorType::Wsh | DescriptorType::ShWsh) as usize;
+        let lens: Vec<String> = items.iter().map(|i| i.len().to_string()).collect();
+        out.line(&format!("J tmpl-items {} {} {} {} {} {}", head, tw, kind, n + extra, extra, if lens.is_empty() { "-".into() } else { lens.join(",") }), "ok");
+    }
+    // what update_psbt_input writes, and finalization of the updated + signed PSBT
+    psbt_check(out, dd, &plan, &psat_p, &pwit, &pss, &head, mall, class);
+    // taproot: the cheapest available path is chosen
+    if ty == DescriptorType::Tr && dd.leaves.len() >= 2 && !via_sat { tr_choice(out, dd, pa, Some(&plan), mall, &head); }
     // (d) necessity: any smaller value, the other unit, or no lock at all must fail
     let mut variants: Vec<(u32, u32, &'static str)> = vec![];
     if let Some(a) = plan.absolute_timelock.map(|l| l.to_consensus_u32()) {
@@ -561,6 +721,177 @@ pub fn check_case(out: &mut Out, dd: &DD, pa: &PA, mall: bool, adversarial: bool
             emit_spend_std(out, "spendfail", &format!("{} {} lt={} sq={}", head, what, l2, s2), &ps2, &ss2, &w2);
             out.count(&format!("necessity {}", what));
         }
+    }
+}
+
+/// taproot choice: key path whenever a covering source can key-spend, otherwise the cheapest of
+/// the leaves that can be satisfied on their own (each leaf planned separately with the assets
+/// restricted to it)
+fn tr_choice(out: &mut Out, dd: &DD, pa: &PA, plan: Option<&DPlan>, mall: bool, head: &str) {
+    let ik = kent(dd.internal.unwrap());
+    let key_avail = pa.srcs.iter().any(|s| s.key_spend && s.covers(ik));
+    let mut sizes = vec![];
+    for li in 0..dd.leaves.len() {
+        let mut p = pa.clone();
+        for s in p.srcs.iter_mut() {
+            s.key_spend = false;
+            s.leaves = if s.leaf_ok(Some(li)) { Leaves::Only(vec![li]) } else { Leaves::None };
+        }
+        let a = p.to_assets(&dd.leaves);
+        match run_plan(dd, &a, mall, false) {
+            Some(Ok(pl)) => sizes.push(pl.witness_size().to_string()),
+            _ => sizes.push("-".into()),
+        }
+    }
+    let (kind, chosen) = match plan {
+        None => ("none", "-".to_string()),
+        Some(p) => (if p.witness_template().len() == 1 { "key" } else { "script" }, p.witness_size().to_string()),
+    };
+    out.line(&format!("J tr-choice {} key={} {} {} {}", head, key_avail as u8, kind, chosen, sizes.join(",")), "ok");
+}
+
+fn origin_wire(k: &KEnt) -> String { format!("{}:{}", k.fp, path_wire(&k.path)) }
+
+/// (1) fields written by `Plan::update_psbt_input` against an independent expectation (the keys
+/// whose signatures `Plan::satisfy` asked for, with the origins of the key table; scripts are
+/// judged by the Lean side against the scriptPubKey / the produced witness);
+/// (2) the updated PSBT + exactly those signatures / preimages finalizes to the plan's spend.
+fn psbt_check(out: &mut Out, dd: &DD, plan: &DPlan, ps: &PSat, pwit: &[Vec<u8>], pss: &ScriptBuf, head: &str, mall: bool, class: &str) {
+    let ty = dd.desc.desc_type();
+    let mut psbt = match Psbt::from_unsigned_tx(ps.tx.clone()) { Ok(p) => p, Err(_) => return };
+    psbt.inputs[0].witness_utxo = Some(ps.prevout.clone());
+    if catch(|| plan.update_psbt_input(&mut psbt.inputs[0])).is_none() {
+        out.line(&format!("J nopanic update_psbt_input {}.{} {} PANIC", class, ty_name(ty), head), "ok");
+        return;
+    }
+    let log = ps.log.borrow().clone();
+    let j = |mut v: Vec<String>| { v.sort(); v.dedup(); if v.is_empty() { "-".to_string() } else { v.join(",") } };
+    let tr = ty == DescriptorType::Tr;
+    // ---- actual
+    let inp = &psbt.inputs[0];
+    let a_b32 = j(inp.bip32_derivation.iter().map(|(pk, (fp, path))| format!("{}:{}:{}", hex(&pk.serialize()), fp, path_wire(path.as_ref()))).collect());
+    let a_tko = j(inp.tap_key_origins.iter().map(|(x, (_, (fp, path)))| format!("{}:{}:{}", hex(&x.serialize()), fp, path_wire(path.as_ref()))).collect());
+    let a_lh = j(inp.tap_key_origins.iter().map(|(x, (lhs, _))| {
+        let mut l: Vec<String> = lhs.iter().map(|h| hex(h.as_byte_array())).collect(); l.sort();
+        format!("{}:{}", hex(&x.serialize()), if l.is_empty() { "-".into() } else { l.join("+") })
+    }).collect());
+    let a_ts = j(inp.tap_scripts.iter().map(|(cb, (sc, ver))| format!("{}:{}:{:02x}", hex(&cb.serialize()), hex(sc.as_bytes()), ver.to_consensus())).collect());
+    let a_mr = inp.tap_merkle_root.map(|r| hex(r.as_byte_array())).unwrap_or("-".into());
+    let a_ik = inp.tap_internal_key.map(|k| hex(&k.serialize())).unwrap_or("-".into());
+    let a_ws = inp.witness_script.as_ref().map(|s| hex(s.as_bytes())).unwrap_or("-".into());
+    let a_rs = inp.redeem_script.as_ref().map(|s| hex(s.as_bytes())).unwrap_or("-".into());
+    // ---- expected key metadata: the keys whose SIGNATURE the plan asked for, and the keys whose
+    // PUBLIC KEY appears in what Plan::satisfy produced (pk_h dissatisfied), with the origins of
+    // the key table
+    let items: Vec<Vec<u8>> = match ty {
+        DescriptorType::Bare | DescriptorType::Pkh | DescriptorType::Sh => pushed_items(pss).unwrap_or_default(),
+        _ => pwit.to_vec(),
+    };
+    let mut sig_keys: BTreeSet<u32> = BTreeSet::new();
+    let mut leaf_of: BTreeMap<u32, TapLeafHash> = BTreeMap::new();
+    let mut key_spend = false;
+    for g in &log {
+        match g {
+            Given::Ecdsa { key, .. } => { sig_keys.insert(*key); }
+            Given::TapKey { .. } => { key_spend = true; sig_keys.insert(dd.internal.unwrap()); }
+            Given::TapLeaf { key: Some(key), leaf, .. } => { sig_keys.insert(*key); leaf_of.insert(*key, *leaf); }
+            _ => {}
+        }
+    }
+    let mut needed = sig_keys.clone();
+    // (descriptors with raw key hashes: a pushed key may belong to the raw fragment)
+    for id in dd.keys.iter().filter(|_| dd.rawpkhs.is_empty()) {
+        let k = kent(*id);
+        let ser = if tr { k.pk.inner.x_only_public_key().0.serialize().to_vec() } else { k.pk.to_bytes() };
+        if items.iter().any(|i| *i == ser) { needed.insert(*id); }
+    }
+    let pkh_dissat = needed.iter().any(|k| !sig_keys.contains(k));
+    // a raw key hash that is dissatisfied: the key is known to the satisfier only, no PSBT field
+    // written from a plan can carry it
+    let raw_pk_only = plan.witness_template().iter().any(|p| match p {
+        Placeholder::PubkeyHash(h, _) => !plan.witness_template().iter().any(|q| matches!(q, Placeholder::EcdsaSigPkHash(h2) if h2 == h) || matches!(q, Placeholder::SchnorrSigPkHash(h2, _, _) if h2 == h)),
+        _ => false,
+    });
+    let class = if pkh_dissat { "pkhdissat" } else { "std" };
+    let (mut e_b32, mut e_tko, mut e_lh) = (vec![], vec![], vec![]);
+    for id in &needed {
+        let k = kent(*id);
+        if tr {
+            let x = hex(&k.pk.inner.x_only_public_key().0.serialize());
+            e_tko.push(format!("{}:{}", x, origin_wire(k)));
+            // leaf hashes are judged for the keys that sign (a missing key is `J psbt-keys`'s business)
+            if sig_keys.contains(id) { e_lh.push(format!("{}:{}", x, leaf_of.get(id).map(|l| hex(l.as_byte_array())).unwrap_or("-".into()))); }
+        } else {
+            e_b32.push(format!("{}:{}", hex(&k.pk.inner.serialize()), origin_wire(k)));
+        }
+    }
+    let (mode, aw) = { let t: Vec<&str> = head.splitn(4, ' ').collect(); (t[1].to_string(), t[3].to_string()) };
+    let tag = head.split(' ').next().unwrap().to_string();
+    // two descriptor keys over the same curve point (compressed + uncompressed atom of one
+    // secret) share one bip32_derivation slot: which origin survives is not specified
+    let mut points: Vec<Vec<u8>> = needed.iter().map(|id| kent(*id).pk.inner.serialize().to_vec()).collect();
+    points.sort(); let np = points.len(); points.dedup();
+    if points.len() != np { out.count("psbt-keys skipped: two needed keys share a curve point"); }
+    else if !pkh_dissat || raw_budget("psbt-keys", class) {
+        out.line(&format!("J psbt-keys {}.{} {} {} {} A:b32={};tko={} E:b32={};tko={}", class, tag, mode, dd.name, aw, a_b32, a_tko, j(e_b32), j(e_tko)), "ok");
+    }
+    if tr {
+        let sub = if leaf_of.is_empty() { "nokeys" } else { "withkeys" };
+        let signing: BTreeSet<String> = sig_keys.iter().map(|id| hex(&kent(*id).pk.inner.x_only_public_key().0.serialize())).collect();
+        let a_lh = j(a_lh.split(',').filter(|e| signing.contains(e.split(':').next().unwrap_or(""))).map(|e| e.to_string()).collect());
+        if leaf_of.is_empty() || raw_budget("psbt-leafhashes", sub) {
+            out.line(&format!("J psbt-leafhashes {}.{} {} {} {} A:{} E:{}", sub, tag, mode, dd.name, aw, a_lh, j(e_lh)), "ok");
+        }
+    }
+    // taproot oracle (rust-bitcoin): output key = internal key tweaked by the recorded merkle root
+    let (ikx, tw) = match (&dd.desc, dd.internal) {
+        (Descriptor::Tr(_), Some(ik)) => {
+            let x = kent(ik).pk.inner.x_only_public_key().0;
+            let spk = ps.prevout.script_pubkey.as_bytes();
+            let ok = spk.len() == 34 && XOnlyPublicKey::from_slice(&spk[2..34]).map(|o| x.tap_tweak(secp(), inp.tap_merkle_root).0.to_x_only_public_key() == o).unwrap_or(false);
+            (hex(&x.serialize()), ok as u8)
+        }
+        _ => ("-".to_string(), 0),
+    };
+    let path = if !tr { "-" } else if key_spend { "key" } else { "script" };
+    out.line(&format!("J psbt-scripts {} {} {} {} path={} ikx={} tw={} ts={} mr={} ik={} ws={} rs={}",
+        head, hex(ps.prevout.script_pubkey.as_bytes()), hex(pss.as_bytes()), wit_wire(pwit), path, ikx, tw,
+        a_ts, a_mr, a_ik, a_ws, a_rs), "ok");
+    // ---- sign + finalize (the finalizer re-parses the script with the sanity rules: sane
+    // descriptors only; a dissatisfied RAW key hash cannot be carried by the PSBT)
+    if !dd.sane { out.count("psbt-finalize skipped: script rejected by decode_consensus rules"); return; }
+    if raw_pk_only { out.count("psbt-finalize skipped: raw key hash dissatisfied (key known to the satisfier only)"); return; }
+    {
+        let inp = &mut psbt.inputs[0];
+        for g in &log {
+            match g {
+                Given::Ecdsa { pk, sig, .. } | Given::RawEcdsa { pk, sig } => { inp.partial_sigs.insert(*pk, *sig); }
+                Given::TapKey { sig } => { inp.tap_key_sig = Some(*sig); }
+                Given::TapLeaf { x, leaf, sig, .. } => { inp.tap_script_sigs.insert((*x, *leaf), *sig); }
+                Given::Pre { kind, id } => {
+                    let (v, p) = (ast::hash_value(*kind, *id), ast::preimage(*id).to_vec());
+                    match kind {
+                        HK::Sha256 => { inp.sha256_preimages.insert(sha256::Hash::from_slice(&v).unwrap(), p); }
+                        HK::Hash256 => { inp.hash256_preimages.insert(miniscript::bitcoin::hashes::sha256d::Hash::from_slice(&v).unwrap(), p); }
+                        HK::Ripemd160 => { inp.ripemd160_preimages.insert(ripemd160::Hash::from_slice(&v).unwrap(), p); }
+                        HK::Hash160 => { inp.hash160_preimages.insert(hash160::Hash::from_slice(&v).unwrap(), p); }
+                    }
+                }
+            }
+        }
+    }
+    let r = catch(|| if mall { psbt.finalize_mall_mut(secp()) } else { psbt.finalize_mut(secp()) });
+    let (res, fw, fs) = match r {
+        None => ("panic".to_string(), ".".to_string(), "-".to_string()),
+        Some(Err(e)) => (format!("err:{}", e.iter().map(|x| x.to_string()).collect::<Vec<_>>().join("/").replace(' ', "_")), ".".to_string(), "-".to_string()),
+        Some(Ok(())) => {
+            let w: Vec<Vec<u8>> = psbt.inputs[0].final_script_witness.as_ref().map(|w| w.to_vec()).unwrap_or_default();
+            let ss = psbt.inputs[0].final_script_sig.clone().unwrap_or_default();
+            ("ok".to_string(), wit_wire(&w), hex(ss.as_bytes()))
+        }
+    };
+    if !pkh_dissat || raw_budget("psbt-finalize", class) {
+        out.line(&format!("J psbt-finalize {}.{} {} {} {} {} {} {} {} {}", class, tag, mode, dd.name, aw, res, fw, fs, wit_wire(pwit), hex(pss.as_bytes())), "ok");
     }
 }
 
@@ -749,6 +1080,48 @@ fn lock_corpus(k: &dyn Fn(u32) -> u32, tap: bool) -> Vec<Node> {
     v
 }
 
+/// one script per hash kind (all four `Assets` preimage sets are read in every tier)
+fn hash_corpus(k: &dyn Fn(u32) -> u32) -> Vec<Node> {
+    let mut v = vec![];
+    for (kind, h) in [(HK::Sha256, 0u32), (HK::Hash160, 1), (HK::Hash256, 2), (HK::Ripemd160, 3)] {
+        v.push(and_v(Node::Verify(bx(Node::Hash(kind, h))), pk(k(0))));
+        v.push(Node::OrD(bx(pk(k(1))), bx(and_v(Node::Verify(bx(Node::Hash(kind, h))), Node::Older(10)))));
+    }
+    v.push(Node::Thresh(2, vec![Node::Hash(HK::Hash256, 2), Node::Alt(bx(Node::Hash(HK::Ripemd160, 3))), Node::Alt(bx(Node::Hash(HK::Hash160, 1))), Node::Swap(bx(pk(k(0))))]));
+    v
+}
+/// raw key-hash fragments (`expr_raw_pkh`): satisfied, dissatisfied and unavailable
+fn raw_corpus(k: &dyn Fn(u32) -> u32) -> Vec<Node> {
+    let r = |h: u32| Node::Check(bx(Node::RawPkH(k(h))));
+    vec![
+        r(0),
+        and_v(Node::Verify(bx(r(1))), pk(k(0))),
+        Node::OrD(bx(pk(k(0))), bx(and_v(Node::Verify(bx(r(1))), Node::Older(10)))),
+        Node::AndOr(bx(r(0)), bx(pk(k(1))), bx(pk(k(2)))),
+        Node::OrB(bx(r(2)), bx(Node::Alt(bx(r(3))))),
+        Node::Thresh(2, vec![r(0), Node::Swap(bx(r(1))), Node::Swap(bx(pk(k(2))))]),
+    ]
+}
+/// asset sets with raw key-hash knowledge (planned through the Satisfier provider)
+fn raw_variants(dd: &DD) -> Vec<PA> {
+    if dd.rawpkhs.is_empty() { return vec![]; }
+    let full = full_pa(dd);
+    let all: BTreeSet<u32> = dd.rawpkhs.iter().cloned().collect();
+    let mut v = vec![];
+    { let mut a = full.clone(); a.rawpk = all.clone(); a.rawsig = all.clone(); v.push(a); }
+    { let mut a = full.clone(); a.rawpk = all.clone(); v.push(a); }
+    { let mut a = full.clone(); a.rawsig = all.clone(); v.push(a); }
+    for h in &dd.rawpkhs {
+        let mut a = full.clone(); a.rawpk = all.clone(); a.rawsig = all.clone(); a.rawsig.remove(h); v.push(a.clone());
+        a.rawpk.remove(h); v.push(a);
+        let mut b = full.clone(); b.rawsig.insert(*h); v.push(b);
+    }
+    { let mut a = PA::default(); a.rawpk = all.clone(); a.rawsig = all; a.abs = full.abs; a.rel = full.rel; v.push(a); }
+    let mut seen = BTreeSet::new();
+    v.retain(|a| seen.insert(a.clone()));
+    v
+}
+
 pub fn run(out: &mut Out, thorough: bool, seed: u64) {
     let mut rng = Rng(seed ^ 0xC17);
     let _ = ktable();
@@ -764,7 +1137,7 @@ pub fn run(out: &mut Out, thorough: bool, seed: u64) {
         let atoms = Atoms {
             keys: vec![0, 1, 2],
             unc_keys: if thorough && ctx != CtxK::Segwitv0 { vec![100] } else { vec![] },
-            hashes: vec![(HK::Sha256, 0)],
+            hashes: if thorough { vec![(HK::Sha256, 0), (HK::Hash160, 1), (HK::Hash256, 2), (HK::Ripemd160, 3)] } else { vec![(HK::Sha256, 0), (HK::Ripemd160, 1)] },
             afters: if thorough { vec![100, 200, 500_000_001] } else { vec![100, 200] },
             olders: if thorough { vec![10, 20, 4_194_305] } else { vec![10, 20] },
         };
@@ -772,6 +1145,8 @@ pub fn run(out: &mut Out, thorough: bool, seed: u64) {
             .into_iter().filter(|t| t.base == Base::B).map(|t| t.node).collect();
         nodes.extend(lock_corpus(&|i| i, false));
         nodes.extend(lock_corpus(&|i| 300 + i, false));
+        nodes.extend(hash_corpus(&|i| i));
+        if ctx != CtxK::Bare { nodes.extend(raw_corpus(&|i| i)); }
         for node in &nodes {
             for w in &wraps {
                 // sh-wsh: every third script only (same satisfier as wsh)
@@ -779,7 +1154,9 @@ pub fn run(out: &mut Out, thorough: bool, seed: u64) {
                 if let Some(dd) = dd_ms(*w, node) {
                     n_desc += 1;
                     node.count_frags(out);
-                    for pa in pa_variants(&dd, cap, &mut rng) {
+                    let mut pas = pa_variants(&dd, cap, &mut rng);
+                    pas.extend(raw_variants(&dd));
+                    for pa in pas {
                         for mall in [false, true] { check_case(out, &dd, &pa, mall, false); }
                     }
                 }
@@ -814,12 +1191,32 @@ pub fn run(out: &mut Out, thorough: bool, seed: u64) {
     }
     // ---- taproot
     {
-        let atoms = Atoms { keys: vec![200, 201, 202], unc_keys: vec![], hashes: vec![(HK::Sha256, 0)],
+        let atoms = Atoms { keys: vec![200, 201, 202], unc_keys: vec![],
+            hashes: if thorough { vec![(HK::Sha256, 0), (HK::Hash160, 1), (HK::Hash256, 2), (HK::Ripemd160, 3)] } else { vec![(HK::Sha256, 0), (HK::Ripemd160, 1)] },
             afters: vec![100, 200], olders: vec![10, 20] };
         let mut frags: Vec<Node> = ast::enumerate(CtxK::Tap, &atoms, if thorough { 3 } else { 2 }, if thorough { 20 } else { 8 }, &mut rng)
             .into_iter().filter(|t| t.base == Base::B).map(|t| t.node).collect();
         frags.extend(lock_corpus(&|i| 200 + i, true));
+        frags.extend(hash_corpus(&|i| 200 + i));
         let xfrags = lock_corpus(&|i| 300 + i, true);
+        // leaves of clearly different cost, multi_a / sortedmulti_a over FULL keys of mixed parity
+        // (8 and 9: the x-only order and the compressed-encoding order differ), raw key hashes
+        let costly: Vec<Node> = vec![
+            pk(200),
+            and_v(vpk(201), pk(202)),
+            Node::MultiA(2, vec![208, 201, 209]),
+            Node::SortedMultiA(2, vec![208, 201, 209]),
+            Node::SortedMultiA(2, vec![209, 208, 201]),
+            Node::SortedMultiA(1, vec![209, 208]),
+            Node::MultiA(3, vec![209, 208, 201]),
+            and_v(Node::Verify(bx(Node::SortedMultiA(2, vec![208, 209, 202]))), Node::Older(10)),
+            Node::Thresh(2, vec![pk(208), Node::Swap(bx(pk(209))), Node::Swap(bx(pk(201)))]),
+            and_v(Node::Verify(bx(Node::Hash(HK::Hash256, 2))), pk(209)),
+            Node::OrD(bx(pk(208)), bx(and_v(vpk(209), Node::After(100)))),
+            Node::Check(bx(Node::RawPkH(200))),
+            and_v(Node::Verify(bx(Node::Check(bx(Node::RawPkH(201))))), pk(200)),
+            Node::AndOr(bx(Node::Check(bx(Node::RawPkH(200)))), bx(pk(201)), bx(pk(202))),
+        ];
         for ik in [3u32, 2, 303] {
             if let Some(dd) = dd_tr(ik, &[]) {
                 n_desc += 1;
@@ -828,16 +1225,19 @@ pub fn run(out: &mut Out, thorough: bool, seed: u64) {
         }
         let n_tr = if thorough { 600 } else { 110 };
         for i in 0..n_tr {
-            let nl = 1 + rng.below(3);
-            let pool = if i % 5 == 4 { &xfrags } else { &frags };
-            let leaves: Vec<Node> = (0..nl).map(|_| pool[rng.below(pool.len())].clone()).collect();
+            let nl = if i % 3 == 2 { 3 + rng.below(3) } else { 1 + rng.below(3) };
+            let pool = if i % 5 == 4 { &xfrags } else if i % 3 == 2 { &costly } else { &frags };
+            let mut leaves: Vec<Node> = (0..nl).map(|_| pool[rng.below(pool.len())].clone()).collect();
+            if i % 6 == 2 { leaves.push(frags[rng.below(frags.len())].clone()); }
             let ik = *rng.pick(&[3u32, 4, 0, 303]);
             if let Some(dd) = dd_tr(ik, &leaves) {
                 // leaf hashes must be pairwise distinct for per-leaf availability to be meaningful
                 let mut l = dd.leaves.clone(); l.sort(); l.dedup();
                 if l.len() != dd.leaves.len() { continue; }
                 n_desc += 1;
-                for pa in pa_variants_tr(&dd, cap, &mut rng) { for mall in [false, true] { check_case(out, &dd, &pa, mall, false); } }
+                let mut pas = pa_variants_tr(&dd, cap, &mut rng);
+                pas.extend(raw_variants(&dd));
+                for pa in pas { for mall in [false, true] { check_case(out, &dd, &pa, mall, false); } }
             }
         }
     }
